@@ -101,6 +101,18 @@ func c07AfterLastToken() []string {
 	add("leaf l { type decimal64; }")
 	add("leaf l { type identityref; }")
 	add("leaf l { type leafref; }")
+	// every keyword of YANG 1 and of YANG 1.1 (and the internal spellings of some), as a statement where it does
+	// not belong, with and without an argument and a block: refused or kept as an unknown statement, never more
+	for _, kw := range append(append([]string{}, yang.AllKeywords...), "action", "anydata", "modifier", "deviate-add", "deviate-delete", "deviate-replace", "deviate-not-supported",
+		"opd:command", "opd:option", "opd:argument", "opd:augment", "unknown", "case-implicit", "tree", "root") {
+		add(kw + " x;")
+		add(kw + ";")
+		add(kw + " x { }")
+		add(kw + " invert-match { description d; }")
+		add("leaf l { type string { pattern 'a' { " + kw + " invert-match; } } }")
+		add("container c { " + kw + " x; " + kw + " y { " + kw + " z; } }")
+		out = append(out, kw+" x;", kw+" x { "+kw+" y; }")
+	}
 	// revision dates: every field at and beyond its limits (the dates are compared with each other once the
 	// module is complete), and texts that only look like dates
 	for _, y := range []string{"0000", "1900", "2020", "2024", "9999"} {
